@@ -57,6 +57,7 @@ func PrivKey(i int) *secp256k1.PrivKey { return privKeys[i] }
 
 // AddrIndex returns the account index of a bech32 address or -1.
 func AddrIndex(bech string) int {
+	bech = CanonAddr(bech)
 	for i, a := range Addrs {
 		if a.String() == bech {
 			return i
